@@ -98,7 +98,86 @@ fn emit_string(sink: &mut Sink, cfg: &str, b: &[u8], tag: &str) {
     sink.case("rawstr", &[cfg, &hexf(b)], &o, &format!("{}:{}", tag, class), b.len() > 1);
 }
 
+// ------------------------------------------------------------------------------------------------ rawseq
+/// `rawseq <cfg> <shape> <k> <hex> => str|slice|reader` — ONE `Deserializer` per source (`from_str` / `from_slice` / `from_reader`
+/// over a chunked reader), `k` successive `T::deserialize(&mut de)` calls on it, going on after errors; each call's result is one
+/// item: shape `raw` (`T = Box<RawValue>`): `R<hex text>`; shape `wrap` (`T = W { code: u32, payload: Box<RawValue> }`, a struct with
+/// a RawValue field, followed by further documents): `W<code>;<hex text of payload>`; or the error. `-` for str when not UTF-8.
+#[derive(Deserialize)]
+struct W { code: u32, payload: Box<RawValue> }
+
+fn seq_items<'de, R: serde_json::de::Read<'de>>(de: &mut serde_json::Deserializer<R>, shape: &str, k: usize) -> String {
+    let mut out: Vec<String> = vec![];
+    for _ in 0..k {
+        out.push(g(|| if shape == "raw" { match Box::<RawValue>::deserialize(&mut *de) { Ok(r) => format!("R{}", hexf(r.get().as_bytes())), Err(e) => show_err(&e) } }
+                      else { match W::deserialize(&mut *de) { Ok(w) => format!("W{};{}", w.code, hexf(w.payload.get().as_bytes())), Err(e) => show_err(&e) } }));
+    }
+    out.join(",")
+}
+
+pub fn rawseq_obs(shape: &str, b: &[u8], k: usize, sizes: Vec<usize>) -> String {
+    let s = match std::str::from_utf8(b) { Ok(s) => { let mut de = serde_json::Deserializer::from_str(s); seq_items(&mut de, shape, k) } Err(_) => "-".into() };
+    let sl = { let mut de = serde_json::Deserializer::from_slice(b); seq_items(&mut de, shape, k) };
+    let rd = { let mut de = serde_json::Deserializer::from_reader(Chunked::new(b, sizes)); seq_items(&mut de, shape, k) };
+    format!("{}|{}|{}", s, sl, rd)
+}
+
+fn emit_seq(sink: &mut Sink, cfg: &str, shape: &str, b: &[u8], k: usize, tag: &str) {
+    let o = rawseq_obs(shape, b, k, vec![2, 3, 1]);
+    let rd = o.rsplit('|').next().unwrap_or("");
+    let items: Vec<&str> = rd.split(',').collect();
+    let first_err = items.iter().position(|x| x.starts_with("E:"));
+    let after = match first_err { Some(i) => items[i..].iter().any(|x| !x.starts_with("E:")), None => false };
+    let class = if after { "capture-after-error" } else if first_err.map_or(false, |i| items[i].contains(":eof:")) { "captures-then-eof" } else if first_err.is_some() { "error-then-errors" } else { "all-captured" };
+    sink.case("rawseq", &[cfg, shape, &k.to_string(), &hexf(b)], &o, &format!("rawseq:{}:{}:{}", tag, shape, class), b.len() > 1);
+}
+
+/// items that fail as a raw capture AFTER capture began (bad literal, bad number, bad escape, unclosed / malformed container), and
+/// items that fail at their first byte
+const BROKEN: &[&str] = &["nul", "tru", "fals", "nulL", "-x", "-", "1.", "1.x", "1e", "1e+", "01", "\"\\q", "\"\\u12", "\"a\u{1}b\"", "[1,", "[1,]", "[1 2]", "{\"a\" 1}", "{\"a\":}", "{1}", "[nul]", "x", "]", ",", ":"];
+const WSS: &[&str] = &[" ", "\n", "\t", "\r", "  ", " \n ", "\r\n", "", ""];
+
+fn gen_seq(r: &mut Rng, shape: &str) -> (Vec<u8>, usize) {
+    let n = 2 + r.below(4);
+    let mut doc: Vec<u8> = vec![];
+    doc.extend_from_slice(r.pick(WSS).as_bytes());
+    for i in 0..n {
+        let mut item: Vec<u8> = vec![];
+        let mut broken = false;
+        if r.chance(2, 5) { item.extend_from_slice(r.pick(BROKEN).as_bytes()); broken = true; }
+        else if r.chance(1, 6) { let xs: [&[u8]; 9] = ["\"\u{e9}\"".as_bytes(), "[\"\u{20ac}\", \"\u{10348}\"]".as_bytes(), b"\"\xff\"", b"[\"\xe2\x82\"]", b"17", b"-0.5e+3", b"true", b"null", b"[1, 2]"]; item.extend_from_slice(*r.pick(&xs)); }
+        else { gen_doc_into(r, 2, &mut item); }
+        if shape == "wrap" && !r.chance(1, 8) {
+            doc.extend_from_slice(b"{"); doc.extend_from_slice(r.pick(WSS).as_bytes());
+            // a broken payload last in an object that is never closed: the failed capture is followed directly by the next document
+            if broken && r.chance(1, 2) { doc.extend_from_slice(format!("\"code\":{},\"payload\":", i * 7).as_bytes()); doc.extend_from_slice(&item); doc.extend_from_slice(r.pick(&WSS[..6]).as_bytes()); continue; }
+            if r.chance(1, 2) { doc.extend_from_slice(format!("\"code\":{},", i * 7).as_bytes()); doc.extend_from_slice(r.pick(WSS).as_bytes()); doc.extend_from_slice(b"\"payload\""); doc.extend_from_slice(r.pick(WSS).as_bytes()); doc.push(b':'); doc.extend_from_slice(r.pick(WSS).as_bytes()); doc.extend_from_slice(&item); }
+            else { doc.extend_from_slice(b"\"payload\":"); doc.extend_from_slice(r.pick(WSS).as_bytes()); doc.extend_from_slice(&item); doc.extend_from_slice(r.pick(WSS).as_bytes()); doc.extend_from_slice(format!(",\"code\":{}", i * 7).as_bytes()); }
+            doc.extend_from_slice(r.pick(WSS).as_bytes()); doc.extend_from_slice(b"}");
+        } else { doc.extend_from_slice(&item); }
+        // a separator: mostly whitespace (a bare scalar directly followed by the next item is one more broken shape)
+        if r.chance(5, 6) { doc.extend_from_slice(r.pick(&WSS[..6]).as_bytes()); } else { doc.extend_from_slice(r.pick(WSS).as_bytes()); }
+    }
+    (doc, n + 2 + r.below(3))
+}
+
+pub fn run_seq(sink: &mut Sink, thorough: bool, r: &mut Rng) {
+    let cfg = cfg_tag();
+    for s in ["nul [1, 2] ", "tru fals -x 17", "1 2 3", " [1,2]\n{\"a\":null}\t\"x\" ", "\"\\q 0 [true, null]", "[1, 2 [3]", "1x 2", "{\"a\":nul} 5 6", "", "  ", "nul", "nul 1", "\"\u{e9}\" tru \"\u{20ac}\"", "[1,] [2] [3,] [4]"] {
+        emit_seq(sink, &cfg, "raw", s.as_bytes(), 5, "corpus");
+    }
+    for s in ["{\"code\":1,\"payload\":\"\\q 0 {\"code\":200,\"payload\":{\"a\":[true, null]}}", "{\"code\":1,\"payload\":nul} {\"code\":2,\"payload\":[1, 2]}", "{\"code\":1,\"payload\":[1]} {\"payload\":-x,\"code\":2} {\"code\":3,\"payload\": {} }",
+              "{\"code\":1,\"payload\":tru {\"code\":2,\"payload\":7}", "[1, nul] [2, [3]]", "[1, [0]] [2, \"x\"] "] {
+        emit_seq(sink, &cfg, "wrap", s.as_bytes(), 5, "corpus");
+    }
+    for _ in 0..(if thorough { 6000 } else { 600 }) {
+        let (d, k) = gen_seq(r, "raw"); emit_seq(sink, &cfg, "raw", &d, k, "gen");
+        if r.chance(1, 2) { let (d, k) = gen_seq(r, "wrap"); emit_seq(sink, &cfg, "wrap", &d, k, "gen"); }
+    }
+}
+
 pub fn replay(sink: &mut Sink, toks: &[&str]) {
+    if toks[0] == "rawseq" && toks.len() >= 5 { emit_seq(sink, &cfg_tag(), toks[2], &unhex(toks[4]), toks[3].parse().unwrap_or(1), "replay"); return; }
     if toks.len() < 3 { return; }
     let cfg = cfg_tag();
     let b = unhex(toks[2]);
@@ -142,4 +221,5 @@ pub fn run(sink: &mut Sink, thorough: bool, seed: u64) {
         emit_top(sink, &cfg, &m, "mut"); emit_string(sink, &cfg, &m, "mut");
         emit_nested(sink, &cfg, &mut r);
     }
+    run_seq(sink, thorough, &mut r);
 }
